@@ -80,7 +80,8 @@ def run_case(case):
         if got != exp:
             failures.append(fail("get_reachable_symbols", "differs",
                                  {"missing": sorted(exp - got, key=repr), "extra": sorted(got - exp, key=repr)}))
-    bounds = [(n, R.language_upto(n)) for n in case["bounds"]]
+    bound_list = list(case["bounds"]) + ([6, 7] if d.get("big") else [])
+    bounds = [(n, R.language_upto(n)) for n in bound_list]
     maxlen = ref_cfg.max_word_length(R) if finite else None
     if finite and (maxlen is None or maxlen <= 7):
         bounds.append((None, R.language_upto(maxlen if maxlen is not None else 0)))
